@@ -249,8 +249,8 @@ func genMisroute(g *Rng, tier string) *Plan {
 		if g.Bool(0.1) {
 			// the same names as extension attributes in a foreign namespace, written by the IdP before it signs
 			v := Pick(g, misACS, misACS, "https://other-sp.example.net/saml/acs")
-			spec.QualAttrs = []NSDecl{{On: "Response", Prefix: "Destination", Value: v}, {On: "SubjectConfirmationData", Prefix: "Recipient", Value: v},
-				{On: "StatusCode", Prefix: "Value", Value: saml.StatusSuccess}}
+			spec.QualAttrs = withNS([]NSDecl{{On: "Response", Prefix: "Destination", Value: v}, {On: "SubjectConfirmationData", Prefix: "Recipient", Value: v},
+				{On: "StatusCode", Prefix: "Value", Value: saml.StatusSuccess}}, Pick(g, "", "xml", "xsi"))
 			st.Labels["foreign-ns-attributes"] = "correct"
 		}
 		if spec.Sign && a.Sign && !a.Encrypt && g.Bool(0.15) {
